@@ -49,6 +49,10 @@ PROGRAMS = {
     "line-separator-chars-in-triple-quoted": "s = '''a\x0cb\x0bc\x1cd\x1de\x1ef\x85g\u2028h\u2029i\nj'''\nprint(ascii(s), len(s))\n",
     "line-separator-chars-in-one-line-literals": "a = 'p\x0cq'\nb = \"r\x0bs\x1ct\"\nc = 'u\x85v\u2028w\u2029x'\nd = f'{a}\x1d{b!r}\x1e'\nprint(ascii(a + b + c + d))\n",
     "formfeed-as-whitespace": "x = 1\n\x0c\nif x:\x0c\n    print('ff', x)\x0c\n# comment \u2028 with separator\nprint('end')\n",
+    # lines made only of blanks / tabs inside a literal, and a file that is indented as a whole (the library refuses it)
+    "whitespace-only-lines-in-literal": "s = '''first\n    \n\t\n  last \n'''\nprint(len(s), ascii(s))\nif s:\n    t = \"\"\"a\n        \n    b\"\"\"\n    print(ascii(t))\n",
+    "uniformly-indented-file": "    x = 1\n    print(x)\n",
+    "leading-blank-lines-and-trailing-spaces": "\n\n   \nx = 1   \nprint(x)\t\n   \n",
     "cr-only-newlines": "a = 2\rif a:\r    print('cr', a)\r",
     "mixed-newlines-in-literal": "s = '''l1\r\nl2\rl3\nl4'''\r\nprint(ascii(s))\n",
     "trailing-blank-and-comment": "print('a')\n\n\n# trailing comment without newline",
@@ -118,6 +122,13 @@ ERRORS = [
     ("legal-illegal-legal", ["-Cif_style=if_expr", "-Cif_style=nope", "-Cif_style=if_expr"]),
     ("illegal-deprecated-then-legal-C", ["--unparser", "oneliner", "-Cunparser=bogus", "-Cunparser=oneliner"]),
     ("two-unknown", ["-Ca=1", "-Cb=2"]),
+    # a legal word with white space / a line end around it is not a legal value (nor a legal name)
+    ("illegal-value-trailing-newline", ["-Cunparser=oneliner\n"]), ("illegal-value-trailing-newline-separate", ["-C", "if_style=short_circuit\n"]),
+    ("illegal-value-trailing-crlf", ["-Cexpr_wrapper=list\r\n"]), ("illegal-value-leading-newline", ["-C", "unparser=\noneliner"]),
+    ("illegal-value-trailing-space", ["-Cunparser=oneliner "]), ("illegal-value-trailing-tab", ["-C", "expr_wrapper=list\t"]),
+    ("unknown-name-trailing-newline", ["-C", "unparser\n=oneliner"]), ("unknown-name-leading-space", ["-C", " unparser=oneliner"]),
+    ("illegal-whole-argument-leading-newline", ["-C", "\nunparser=oneliner"]), ("illegal-value-newline-then-legal", ["-Cunparser=oneliner\n", "-Cunparser=oneliner"]),
+    ("illegal-value-other-option-word", ["-Cunparser=list"]), ("illegal-value-prefix", ["-Cunparser=onelin"]), ("illegal-value-suffix", ["-Cif_style=if_expr2"]),
 ]
 
 
